@@ -143,7 +143,7 @@ pub fn run(ctx: &Ctx) -> i32 {
   for d in [1u8, 2, 5, 10, 20, 29] {
     nodes.extend(deep_border_nodes(d));
   }
-  for &(lon, lat) in generic_points().iter() {
+  for &(lon, lat) in generic_points().iter().chain(fibonacci_points(if ctx.quick() { 3000 } else { 100_000 }).iter()) {
     nodes.push(ref_proj(lon, lat));
   }
   let n_nodes = nodes.len();
